@@ -102,6 +102,57 @@ Proof.
   exact (LatParMain.par_lat_run_unique_key I H1 islat lle jm H2 arities H3 P H4 H5 pl H6 H7 Rin H8 st H9).
 Qed.
 
+(* ================= program values in ANY state =================
+   The theorems above start from a fresh program value (init_state F0).  The property quantifies over every program value:
+   one left by run_timeout returning false (the indices of the interrupted SCC are gone: Engine/Timeout.v TOut) and then
+   resumed; one that completed a run and whose relation fields the caller then pushed to / replaced / truncated / reordered
+   (the stored indices are stale).  Engine/HistRows.v: a history is any list of run() / run_timeout(any clock) / caller
+   mutations (any function on the rows); [hist_obs] lists, for every call, the rows it found and the rows it left. *)
+From AV Require Import Engine.Timeout Engine.HistRows Engine.Vocab Engine.Examples.
+
+(* whatever the stored indices hold when a call starts, it computes the same thing: a stale or dropped index cannot matter *)
+Theorem c05_any_state_stored_indices_irrelevant : forall (I : interp) swap fuel pl steps st1 st2,
+  rows st1 = rows st2 -> hist_obs I swap fuel pl steps st1 = hist_obs I swap fuel pl steps st2.
+Proof. intros I swap fuel pl. exact (hist_rows_only I swap fuel pl). Qed.
+
+(* every call of every history - interrupted or not, resumed or not, whatever the caller did to the rows in between, caller
+   duplicates included - keeps the rows it finds in place and appends only tuples that were absent, each once *)
+Theorem c05_any_state_rows_added_once : forall (I : interp) swap arities P pl fuel steps st obs,
+  arities_functional arities -> no_agg P = true -> validate arities P pl = true ->
+  wf_facts arities (rows st) = true ->
+  (forall g, In (HMut g) steps -> forall F, wf_facts arities F = true -> wf_facts arities (g F) = true) ->
+  hist_obs I swap fuel pl steps st = Some obs ->
+  Forall (fun o => exists added, snd o = fst (fst o) ++ added /\ NoDup added /\ (forall f, In f added -> ~ In f (fst (fst o)))) obs.
+Proof.
+  intros I swap arities P pl fuel steps st obs H1 H2 H3 H4 H5 H6.
+  exact (hist_added_once I swap arities P pl fuel H1 H2 H3 steps st obs H4 H5 H6).
+Qed.
+
+(* ... and with aggregation / negation: as long as the caller's mutations keep the rows duplicate free, the rows are
+   duplicate free after every call of the history, and every call keeps the rows it found as a prefix *)
+Theorem c05_any_state_rows_are_a_set : forall (I : interp) swap arities P pl fuel steps st obs,
+  arities_functional arities -> agg_perm_invariant I -> validate arities P pl = true ->
+  wf_facts arities (rows st) = true -> NoDup (rows st) ->
+  (forall g, In (HMut g) steps -> forall F, wf_facts arities F = true /\ NoDup F -> wf_facts arities (g F) = true /\ NoDup (g F)) ->
+  hist_obs I swap fuel pl steps st = Some obs ->
+  Forall (fun o => NoDup (snd o) /\ exists added, snd o = fst (fst o) ++ added) obs.
+Proof.
+  intros I swap arities P pl fuel steps st obs H1 H2 H3 H4 H5 H6 H7.
+  exact (hist_rows_are_a_set I swap arities P pl fuel H1 H2 H3 steps st obs H4 H5 H6 H7).
+Qed.
+
+(* non-vacuity, transitive closure of a 4-cycle with a tail (Engine/Examples.v, plan dumped by the real macro): run_timeout
+   interrupted inside the recursive SCC (15 rows), resumed by run() (25); the caller replaces edge by 2 rows (22 rows in
+   all); run_timeout interrupted after the first SCC (23), run() adds nothing; the caller truncates path to 3 rows and
+   reverses edge (5 rows); run() (7).  (rows found, flag, rows left) of the five calls: *)
+Example c05_any_state_example :
+  option_map (map (fun o => (length (fst (fst o)), snd (fst o), length (snd o))))
+    (hist_obs std_interp std_swap 30 tc_plan
+       [HMut (m_set tc_input); HTimeout (fire_at 2); HRun; HMut (m_assign 0%nat [[5; 6]; [1; 2]]%Z); HTimeout (fire_at 1); HRun;
+        HMut (m_keep 1%nat 3); HMut (m_rev 0%nat); HRun] (init_state []))
+  = Some [(5, false, 15); (15, true, 25); (22, false, 23); (23, true, 23); (5, true, 7)]%nat.
+Proof. vm_compute. reflexivity. Qed.
+
 (* RESIDUE: the real DashMap entry operation / RwLock / Mutex are assumed atomic (C19 proves the one-winner property for every
    interleaving of the modelled atomic steps: Props/C19.v c19_cfi_concurrent_one_winner); lattice programs WITH aggregation are
    exercised through ascent_par! by the tie only. *)
@@ -109,3 +160,5 @@ Qed.
 Print Assumptions c05_inputs_kept_rows_added_once. Print Assumptions c05_rows_are_a_set. Print Assumptions c05_parallel_rows_added_once.
 Print Assumptions c05_parallel_rows_are_a_set. Print Assumptions c05_lattice_one_row_per_key. Print Assumptions c05_parallel_lattice_one_row_per_key.
 Print Assumptions c05_parallel_lattice_run_one_row_per_key.
+Print Assumptions c05_any_state_stored_indices_irrelevant. Print Assumptions c05_any_state_rows_added_once. Print Assumptions c05_any_state_rows_are_a_set.
+Print Assumptions c05_any_state_example.
